@@ -34,7 +34,74 @@ fn extra_schema(rng: &mut Rng) -> Value {
     }
 }
 
+/// schema documents without objects and references, for the tie of the IR model M7 (`Schema::intersect`)
+fn gen_ir_schema(rng: &mut Rng, depth: usize) -> Value { let k = rng.below(if depth > 1 { 7 } else { 12 }); gen_ir_kind(rng, depth, k) }
+
+fn gen_ir_kind(rng: &mut Rng, depth: usize, kind: usize) -> Value {
+    let dec = |rng: &mut Rng| -> Value { let s = [0usize, 0, 1, 2][rng.below(4)]; let v = rng.range(-40, 40); serde_json::from_str(&if s == 0 { format!("{v}") } else { format!("{}", v as f64 / 10f64.powi(s as i32)) }).unwrap() };
+    match kind {
+        0 | 1 => {
+            let mut m = serde_json::Map::new();
+            if rng.chance(5, 6) { m.insert("type".into(), json!(if rng.chance(1, 2) { "integer" } else { "number" })); }
+            for k in ["minimum", "maximum", "exclusiveMinimum", "exclusiveMaximum"] { if rng.chance(1, 3) { m.insert(k.into(), dec(rng)); } }
+            if rng.chance(1, 2) { m.insert("multipleOf".into(), serde_json::from_str(["1", "2", "3", "5", "0.5", "0.25", "0.1", "1.5", "7", "0.01", "12", "0.75", "0.000000001", "65537", "0.00001"][rng.below(15)]).unwrap()); }
+            if m.is_empty() { m.insert("type".into(), json!("number")); }
+            Value::Object(m)
+        }
+        2 => { let mut v = json!({"type":"string"}); if rng.chance(1, 2) { v["minLength"] = json!(rng.below(4)); } if rng.chance(1, 2) { v["maxLength"] = json!(1 + rng.below(6)); } v }
+        3 => [json!({"const":"ab"}), json!({"const":"cd"}), json!({"enum":["ab","x",""]}), json!({"const":5}), json!({"const":2.5}), json!({"enum":[1,2,"ab",null,true]}), json!({"const":[1,"a"]}), json!({"const":null})][rng.below(8)].clone(),
+        4 => [json!({"type":"boolean"}), json!({"const":true}), json!({"const":false}), json!({"type":"null"}), json!({"enum":[true,null]})][rng.below(5)].clone(),
+        5 => [json!({}), json!(true), json!(false), json!({"type":["integer","string"]}), json!({"type":["number","null","boolean"]}), json!({"type":["array","string"]})][rng.below(6)].clone(),
+        6 => { let mut v = json!({"type":"array"}); if rng.chance(2, 3) { v["items"] = gen_ir_schema(rng, depth + 1); } if rng.chance(1, 2) { v["prefixItems"] = Value::Array((0..1 + rng.below(2)).map(|_| gen_ir_schema(rng, depth + 2)).collect()); } if rng.chance(1, 2) { v["minItems"] = json!(rng.below(3)); } if rng.chance(1, 2) { v["maxItems"] = json!(1 + rng.below(4)); } v }
+        7 | 8 => json!({"anyOf": (0..2 + rng.below(2)).map(|_| gen_ir_schema(rng, depth + 1)).collect::<Vec<_>>()}),
+        9 => json!({"oneOf": (0..2 + rng.below(2)).map(|_| gen_ir_schema(rng, depth + 1)).collect::<Vec<_>>()}),
+        10 => json!({"allOf": (0..2).map(|_| gen_ir_schema(rng, depth + 1)).collect::<Vec<_>>()}),
+        _ => { let mut v = gen_ir_schema(rng, depth + 1); if let Some(o) = v.as_object_mut() { o.insert("anyOf".into(), json!([gen_ir_schema(rng, depth + 2), gen_ir_schema(rng, depth + 2)])); } v }
+    }
+}
+
+/// impl-vs-model: the IR of two schema documents and of their intersection (hook `verif_intersect`) against
+/// `Sch.intersect` of the Lean model M7, whose result is proved to mean the conjunction (c06_intersect_sat)
+fn run_isect(case: &Value, tag: usize, rep: &mut Report, mb: &mut ModelBatch) {
+    let mut rng = Rng::new(case["seed"].as_u64().unwrap_or(1));
+    for _ in 0..case["pairs"].as_u64().unwrap_or(20) {
+        // the second operand is of the first one's kind two times out of three (otherwise most intersections are empty)
+        let ka = rng.below(12);
+        let a = gen_ir_kind(&mut rng, 0, ka);
+        let kb = if ka >= 7 { rng.below(12) } else { ka };
+        let b = if rng.chance(2, 3) { gen_ir_kind(&mut rng, 0, kb) } else { gen_ir_schema(&mut rng, 0) };
+        rep.evaluations += 1;
+        match llguidance::verif::verif_intersect(&a, &b) {
+            Ok((da, db, dr)) => {
+                if [&da, &db].iter().any(|d| d.contains("(object)") || d.contains("(ref)")) { rep.skip("isect-object-or-ref"); continue; }
+                match dr {
+                    Ok(dr) => {
+                        if dr.contains("(object)") || dr.contains("(ref)") { rep.skip("isect-object-or-ref"); continue; }
+                        rep.count("isect.pairs");
+                        if dr.contains("oneof") || da.contains("oneof") || db.contains("oneof") { rep.count("isect.with-oneof"); }
+                        if dr == "unsat" { rep.count("isect.unsat"); }
+                        rep.nontrivial(format!("{da}|{db}"));
+                        mb.push(format!("sch isect 129 (pair {da} {db})"), format!("ok {dr}"), tag);
+                    }
+                    Err(msg) if msg.contains("too large to combine") || msg.contains("stack level") => {
+                        // the model must refuse the same pair (checked lcm out of range / recursion budget)
+                        rep.count("isect.refused");
+                        rep.nontrivial(format!("{da}|{db}"));
+                        mb.push(format!("sch isect 129 (pair {da} {db})"), "err".into(), tag);
+                    }
+                    Err(msg) => rep.skip(&format!("isect-error:{}", crate::eng::err_class(&msg).chars().take(30).collect::<String>())),
+                }
+            }
+            Err(e) => rep.skip(&format!("isect-compile-error:{}", crate::eng::err_class(&e.to_string()).chars().take(30).collect::<String>())),
+        }
+    }
+    rep.sample(json!({"kind": "isect", "pairs": case["pairs"]}));
+}
+
 pub fn gen_case(rng: &mut Rng, idx: usize, thorough: bool) -> Value {
+    if idx % 5 == 4 {
+        return json!({"kind": "isect", "seed": rng.next() % 1_000_000_000, "pairs": if thorough { 120 } else { 40 }});
+    }
     let c = c07::corpus();
     let walks = if thorough { 24 } else { 10 };
     let schema = if idx < c.len() { c[idx].clone() } else if idx % 3 == 0 { extra_schema(rng) } else { c07::gen_root(rng) };
@@ -161,6 +228,7 @@ fn directed_negatives(ctx: &Ctx, schema: &Value, g: &Gram, named: &[String], rng
 }
 
 pub fn run_case(ctx: &Ctx, case: &Value, tag: usize, rep: &mut Report, mb: &mut ModelBatch) {
+    if case["kind"] == "isect" { run_isect(case, tag, rep, mb); return; }
     let schema = &case["schema"];
     let mut rng = Rng::new(case["seed"].as_u64().unwrap_or(1));
     let g = Gram::Json(schema.clone());
